@@ -55,6 +55,7 @@ Inductive op :=
   | OAppend (dst src : nat)
   | OConvert (r : nat)
   | OClone (src dst : nat)
+  | OCloneFrom (src dst : nat)
   | OEq (a b : nat)
   | OSerDe (src : nat) (k : kind) (dst : nat)
   | ODeser (k : kind) (r : nat) (l : list (I * P))
@@ -134,6 +135,14 @@ Definition script_fault (l : list sout) : bool :=
   existsb (fun o => match o with SLen (Fault _) => true | _ => false end) l.
 
 Definition out_script (l : list sout) : out := OutScript l.
+
+(** cloning a queue clones every item and every priority (user code:
+    [I::clone], [P::clone]), entry by entry in slot order *)
+Fixpoint clone_cbs (s : store) (n : nat) : R store :=
+  match n with
+  | O => Ok s
+  | S k => s1 ← cb s; s2 ← cb s1; clone_cbs s2 k
+  end.
 
 (** a constructor: when it unwinds, the value under construction is dropped
     and the register keeps what it had *)
@@ -332,7 +341,26 @@ Definition step1 (fz : option nat) (m : machine) (o : op) : machine * out :=
       | None => inv end
   | OClone src dst =>
       match getreg m src with
-      | Some (k, s) => (setreg m dst k (set_ticks s 0), OutUnit) | None => inv end
+      | Some (k, s) =>
+          match clone_cbs s (length (smap s)) with
+          | Ok _ => (setreg m dst k (set_ticks s 0), OutUnit)
+          | Unwound _ => (m, OutUnwound)        (* the partial clone is dropped *)
+          | Fault f => (m, OutFault f)
+          end
+      | None => inv end
+  | OCloneFrom src dst =>
+      (* Clone::clone_from (the default: [*self = source.clone()]) *)
+      if decide (src = dst) then inv else
+      match getreg m src, getreg m dst with
+      | Some (k, s), Some (k', _) =>
+          if decide (k = k') then
+            match clone_cbs s (length (smap s)) with
+            | Ok _ => (setreg m dst k (set_ticks s 0), OutUnit)
+            | Unwound _ => (m, OutUnwound)      (* the destination is untouched *)
+            | Fault f => (m, OutFault f)
+            end
+          else inv
+      | _, _ => inv end
   | OEq a b =>
       match getreg m a, getreg m b with
       | Some (k, s), Some (k', s') =>
